@@ -170,6 +170,21 @@ def check_one(ck, inp, prod, ghobj, ghar, N, iso, tag, data):
     return got, active
 
 
+def check_nutrients(ck, inp, production, tag, data):
+    """fat and protein of the outdoor-crop output are the calories (after the greenhouse share and waste) times the crop's content"""
+    annual = inp["BASELINE_CROP_KCALS"] * (1 - 92.0 / 3898.0) * 4e6 / 1e9
+    if not annual:
+        return
+    k = np.asarray(production.kcals, float)
+    for nm, comp, base in (("fat", production.fat, inp["BASELINE_CROP_FAT"]), ("protein", production.protein, inp["BASELINE_CROP_PROTEIN"])):
+        got = np.asarray(comp, float)
+        want = k * (base / 1e3) / annual
+        sc = max(1e-300, float(np.abs(want).max()), float(np.abs(got).max()) if got.size else 0.0)
+        if got.shape != want.shape or float(np.abs(got - want).max()) / sc > REL:
+            m = int(np.abs(got - want).argmax()) if got.shape == want.shape else 0
+            ck.bad("crop_nutrients_differ_from_reduced_calories", "%s month %d: %s %.10g, output calories %.10g x crop content = %.10g" % (tag, m, nm, got[m], k[m], want[m]), scenario=tag, nutrient=nm, **data)
+
+
 def paired(case):
     iso, opts = case["iso"], case["opts"]
     N = opts["NMONTHS"]
@@ -182,6 +197,7 @@ def paired(case):
             inp, tc, gh = first(iso, dict(opts, scenario=sc))
             ghobj, ghar = gh if gh is not None else (None, None)
             prods[sc], act = check_one(ck, inp, tc["outdoor_crops"].production.kcals, ghobj, ghar, N, iso, sc, data)
+            check_nutrients(ck, inp, tc["outdoor_crops"].production, sc, data)
             nact += act
             ggot = np.asarray(tc["greenhouse_crops"].kcals, float)
             if len(ggot) != N or not np.isfinite(ggot).all() or ggot.min() < 0:
